@@ -347,6 +347,143 @@ fn pair_family<const C: usize, const D: usize>(cx: &mut Ctx) -> u64 {
     cases
 }
 
+/// Equal-but-distinguishable keys at capacity boundaries: equality on `.0` only, `.1` is the tag.
+#[derive(Clone, Copy, Debug)]
+struct Tk(u16, u16);
+impl PartialEq for Tk {
+    fn eq(&self, o: &Self) -> bool {
+        self.0 == o.0
+    }
+}
+impl Eq for Tk {}
+impl std::borrow::Borrow<u16> for Tk {
+    fn borrow(&self) -> &u16 {
+        &self.0
+    }
+}
+
+/// C12 at capacity boundaries: which of two equal key objects is stored / returned, for a present key in
+/// the first, a middle and the last slot of maps and sets of every fill level and internal order.
+fn ident_family<const C: usize>(cx: &mut Ctx) -> u64 {
+    let mut cases = 0u64;
+    for f in fills(C) {
+        if f == 0 {
+            continue;
+        }
+        for o in ORDERS {
+            let build = || {
+                let (plain, _) = build_map::<C>(f, o);
+                let mut m: Map<Tk, u16, C> = Map::new();
+                let mut s: Set<Tk, C> = Set::new();
+                for (k, v) in plain.iter() {
+                    m.insert(Tk(*k, 0), *v);
+                    s.insert(Tk(*k, 0));
+                }
+                (m, s)
+            };
+            for k in [0u16, (f / 2) as u16, (f - 1) as u16] {
+                cx.here.path = vec![format!("Map<Tk,u16,{C}> / Set<Tk,{C}> holding keys 0..{f} tagged 0 ({o:?})")];
+                cx.here.op = format!("insertion paths with the equal key {k} tagged 1");
+                cx.evaluations += 1;
+                cx.nontrivial += 1;
+                cases += 1;
+                let stored_tag = |m: &Map<Tk, u16, C>| m.get_key_value(&k).map(|(kk, _)| kk.1);
+                let old = k.wrapping_mul(3);
+                {
+                    let (mut m, _) = build();
+                    let r = m.insert(Tk(k, 1), 9);
+                    cx.check(C12, r == Some(old) && stored_tag(&m) == Some(0) && m.len() == f, || format!("insert of an equal key {k}: returned {r:?}, stored tag {:?} (the stored key must be kept)", stored_tag(&m)));
+                }
+                {
+                    let (mut m, _) = build();
+                    let r = m.insert_key_value(Tk(k, 1), 9);
+                    cx.check(C12, r.map(|(kk, v)| (kk.1, v)) == Some((0, old)) && stored_tag(&m) == Some(1) && m.len() == f, || {
+                        format!("insert_key_value of an equal key {k}: returned {r:?}, stored tag {:?} (the supplied key must be stored, the old one handed back)", stored_tag(&m))
+                    });
+                }
+                {
+                    let (mut m, _) = build();
+                    let r = m.checked_insert(Tk(k, 1), 9);
+                    cx.check(C12, r == Some(Some(old)) && stored_tag(&m) == Some(0), || format!("checked_insert of an equal key {k}: returned {r:?}, stored tag {:?}", stored_tag(&m)));
+                }
+                {
+                    let (mut m, _) = build();
+                    let e = m.entry(Tk(k, 1));
+                    let shown = e.key().1;
+                    let v = *e.or_insert(4);
+                    cx.check(C12 | C11, shown == 0 && v == old && stored_tag(&m) == Some(0), || format!("entry of an equal key {k}: key() tag {shown}, value {v}, stored tag {:?}", stored_tag(&m)));
+                    if let micromap::Entry::Occupied(oe) = m.entry(Tk(k, 1)) {
+                        let (kk, _) = oe.remove_entry();
+                        cx.check(C12 | C11, kk.1 == 0, || format!("OccupiedEntry::remove_entry of key {k} returned tag {}", kk.1));
+                    }
+                }
+                {
+                    let (_, mut s) = build();
+                    let r = s.insert(Tk(k, 1));
+                    cx.check(C12, !r && s.get(&k).map(|x| x.1) == Some(0), || format!("Set::insert of an equal element {k}: returned {r}, stored tag {:?}", s.get(&k).map(|x| x.1)));
+                    let r = s.replace(Tk(k, 1));
+                    cx.check(C12, r.map(|x| x.1) == Some(0) && s.get(&k).map(|x| x.1) == Some(1) && s.len() == f, || format!("Set::replace of an equal element {k}: returned {r:?}, stored tag {:?}", s.get(&k).map(|x| x.1)));
+                    let t = s.take(&k);
+                    cx.check(C12, t.map(|x| x.1) == Some(1), || format!("Set::take({k}) returned {t:?}"));
+                }
+            }
+        }
+    }
+    cases
+}
+
+/// Set algebra and equality on elements wider than a machine word, all fill levels of both operands.
+fn wide_elem_family<const C: usize, const D: usize>(cx: &mut Ctx) -> u64 {
+    type W = (u64, u64);
+    let w = |k: u16| -> W { (k as u64, (k as u64).wrapping_mul(0x9E37_79B9)) };
+    let mut cases = 0u64;
+    for fa in fills(C) {
+        for oa in ORDERS {
+            let (pa, _) = build_set::<C>(fa, oa);
+            let a: Set<W, C> = pa.iter().map(|k| w(*k)).collect();
+            let ma: BTreeSet<W> = a.iter().copied().collect();
+            for fb in fills(D) {
+                for variant in 0..2u8 {
+                    let (pb, _) = build_set::<D>(fb, Order::Asc);
+                    let mut b: Set<W, D> = pb.iter().map(|k| w(*k)).collect();
+                    if variant == 1 {
+                        if fb == 0 {
+                            continue;
+                        }
+                        b.remove(&w((fb - 1) as u16));
+                        b.insert(w(60002));
+                    }
+                    let mb: BTreeSet<W> = b.iter().copied().collect();
+                    cx.here.path = vec![format!("A = Set<(u64,u64),{C}> 0..{fa} ({oa:?})"), format!("B = Set<(u64,u64),{D}> 0..{fb} variant {variant}")];
+                    cx.here.op = "set algebra / equality on elements wider than a word".into();
+                    cx.evaluations += 1;
+                    cx.nontrivial += 1;
+                    cases += 1;
+                    let col = |it: &mut dyn Iterator<Item = &W>| -> (BTreeSet<W>, usize) {
+                        let v: Vec<W> = it.copied().collect();
+                        (v.iter().copied().collect(), v.len())
+                    };
+                    let (u, nu) = col(&mut a.union(&b));
+                    let (i, ni) = col(&mut a.intersection(&b));
+                    let (d, nd) = col(&mut a.difference(&b));
+                    let (y, ny) = col(&mut a.symmetric_difference(&b));
+                    let folded = a.difference(&b).fold(0usize, |n, _| n + 1);
+                    cx.check(
+                        C08,
+                        u == ma.union(&mb).copied().collect() && nu == u.len() && i == ma.intersection(&mb).copied().collect() && ni == i.len() && d == ma.difference(&mb).copied().collect() && nd == d.len() && folded == nd && y == ma.symmetric_difference(&mb).copied().collect() && ny == y.len(),
+                        || "a set-algebra iterator over wide elements does not yield the mathematical result (or repeats an element)".to_string(),
+                    );
+                    let sub = &a - &b;
+                    cx.check(C08, sub.len() == d.len() && sub.iter().all(|x| d.contains(x)), || "A - B over wide elements differs from the mathematical difference".to_string());
+                    cx.check(C08, a.is_subset(&b) == ma.is_subset(&mb) && a.is_disjoint(&b) == ma.is_disjoint(&mb), || "predicates over wide elements are wrong".to_string());
+                    cx.check(C14, (a == b) == (ma == mb) && (b == a) == (ma == mb), || "Set equality over wide elements is wrong".to_string());
+                }
+            }
+        }
+    }
+    cases
+}
+
 fn run_cap<const C: usize, const D: usize>(rep: &mut EngineReport) {
     let t0 = std::time::Instant::now();
     let mut cx = rep.cx.fork();
@@ -354,7 +491,13 @@ fn run_cap<const C: usize, const D: usize>(rep: &mut EngineReport) {
     let en = cx.enabled;
     let a = if en & (C01 | C03 | C05 | C09 | C10 | C11 | C13 | C15 | C16 | C19) != 0 { map_family::<C>(&mut cx) } else { 0 };
     let b = if en & (C07 | C03 | C05) != 0 { set_family::<C>(&mut cx) } else { 0 };
-    let (c, d) = if en & (C14 | C08) != 0 { (pair_family::<C, C>(&mut cx), pair_family::<C, D>(&mut cx)) } else { (0, 0) };
+    let (c, mut d) = if en & (C14 | C08) != 0 { (pair_family::<C, C>(&mut cx), pair_family::<C, D>(&mut cx)) } else { (0, 0) };
+    if en & (C14 | C08) != 0 {
+        d += wide_elem_family::<C, D>(&mut cx);
+    }
+    if en & (C12 | C11) != 0 {
+        d += ident_family::<C>(&mut cx);
+    }
     cx.sample(|| J::obj().set("capacity", C).set("fill_levels", format!("{:?}", fills(C))).set("orders", "ascending, descending, shuffled by swap-removes"));
     rep.configs.push(
         J::obj()
